@@ -384,11 +384,11 @@ def _do_run(check, check_mod, pool, tier, seed, t_start, max_cases, nworkers, ti
     os.makedirs(os.path.join(VERIF, 'replays'), exist_ok=True)
     gkeys = sorted(groups, key=lambda k: groups[k][0][0])
     processed = 0
+    unprocessed = []
     for key in gkeys:
         i, v = groups[key][0]
         if processed >= check.max_groups:
-            say('(further violation groups not processed: %s)' % (key,))
-            new_violations.append((key, None, v, len(groups[key])))
+            unprocessed.append((key, v, len(groups[key])))
             continue
         processed += 1
         case = v['case']
@@ -492,6 +492,12 @@ def _do_run(check, check_mod, pool, tier, seed, t_start, max_cases, nworkers, ti
         print('KNOWN-FINDING: property=%s %s (%d cases; e.g. %s)' % (check.id, f.get('what'), c, vmin['explain']))
     if nondet:
         print('HARNESS NONDETERMINISM: a candidate violation did not reproduce; no verdict')
+        return 2
+    for key, v, c in unprocessed:
+        print('further violation group (not gated/minimised, budget of %d groups used): clause=%s cases=%d: %s'
+              % (check.max_groups, key[0], c, v['explain']))
+    if unprocessed and not new_violations and not known_hits:
+        print('HARNESS: violation groups remain but none was processed; no verdict')
         return 2
     if new_violations:
         for key, rpath, vmin, c in new_violations:
